@@ -244,4 +244,26 @@ CHECKS = {
                "vm_compute correspondence of integer counts + reference "
                "implementations",
  },
+ "C13": {
+  "text": "Theorems (all records, cycle lengths incl. those not dividing the "
+          "record, all windows): along one axis a sample is exposed iff the "
+          "bounds coincide or its coordinate lies in the closed interval; the "
+          "windowed observable has exactly as many rows / columns as the time "
+          "/ space masks keep; the global window restores the original view; "
+          "the anomalies of every phase sum to zero; anomaly + phase mean = "
+          "observable sample by sample; anomaly keeps the shape; "
+          "phase_indices lists only indices inside the record of the right "
+          "phase. Window selection (the code's documented space rule), "
+          "anomalies, phase means and phase indices are compared with the "
+          "implementation inside Coq; sequences of window changes and both "
+          "settings of the `anomalies` flag are checked directly against a "
+          "brute-force selection.",
+  "design_ref": "DESIGN.md section 5, C13",
+  "note": "trusted: float32 storage of grid coordinates (generated values "
+          "are exact); float means compared to 1e-9; the per-axis reading of "
+          "the window rule is evaluated by the direct check (the model "
+          "carries both readings)",
+  "technique": "Coq proofs (mask/pick lemmas, field over Q) + vm_compute "
+               "correspondence + brute-force window selection",
+ },
 }
